@@ -3,6 +3,7 @@
 // descriptions (they share nothing with tiff.cpp).
 //   c15_tiff [--cycles 1|2] [--out f.json] [--replay spec]
 #include "files_common.h"
+#include <sys/wait.h>
 #include <algorithm>
 #include <chrono>
 #include <map>
@@ -158,6 +159,11 @@ static std::string check_tiff(const View& b, const std::vector<Expect>& frames, 
 
 // ---------------------------------------------------------------- runs
 static const uint32_t SHAPES[4][2] = { { 1, 1 }, { 3, 2 }, { 5, 1 }, { 33, 3 } };
+// metadata whose CONTENT could be mistaken for something else on its way into the description (format directives, escapes, brackets)
+static const char* META_CONTENT[] = { "{\"zoom\":\"100%\"}", "{\"f\":\"%s%s%s%s%s%s%s%s\"}", "{\"f\":\"%d %x %5000s\"}", "{\"p\":\"100%%\"}", "{\"q\":\"a\\\"b\\\\c\"}",
+                                      "{\"nested\":{\"a\":[1,2,{\"b\":\"%\"}]}}", "{\"%s\":\"%s\"}", "{\"t\":\"tab\\there\"}", "{\"n\":\"%n%n%n%n\"}" };
+static const int N_META_CONTENT = (int)(sizeof META_CONTENT / sizeof *META_CONTENT);
+static std::string desc_meta(int ml) { return ml < 0 ? "{}" : ml >= 1000 ? std::string(META_CONTENT[(ml - 1000) % N_META_CONTENT]) : "{\"k\":\"" + std::string((size_t)ml, 'x') + "\"}"; }
 static const char* METAS[3] = { "", "{}", "{\"a\":1,\"b\":{\"c\":\"d\"}}" };
 static const double SCALES[3][2] = { { 1, 1 }, { 0.5, 2 }, { 0, 0 } };
 struct Cyc { int n, group, meta, scale, uri; };
@@ -418,7 +424,7 @@ int main(int argc, char** argv)
     if (!replay.empty() && !replay.compare(0, 5, "desc=")) {
         int k = 0, d0 = 1, d1 = 1, d2 = 1, d3 = 1, ml = -1;
         sscanf(replay.c_str(), "desc=%d,%d,%d,%d,%d,%d", &k, &d0, &d1, &d2, &d3, &ml);
-        std::string meta = ml < 0 ? "{}" : "{\"k\":\"" + std::string((size_t)ml, 'x') + "\"}";
+        std::string meta = desc_meta(ml);
         std::string v = description_run(k, d0, d1, d2, d3, meta);
         h_rmtree(g_scratch);
         if (v.empty()) { printf("RESULT ok\n"); return 0; }
@@ -495,6 +501,18 @@ int main(int argc, char** argv)
             for (int S = 4; S <= 80; ++S) {
                 int d[4]; for (int k = 0; k < 4; ++k) d[k] = S / 4 + (k < S % 4 ? 1 : 0);
                 note2(description_run(kind, d[0], d[1], d[2], d[3], "{}"), "desc=" + std::to_string(kind) + "," + std::to_string(d[0]) + "," + std::to_string(d[1]) + "," + std::to_string(d[2]) + "," + std::to_string(d[3]) + ",-1");
+            }
+            for (int c = 0; c < N_META_CONTENT; ++c) {
+                // in a forked child: a writer that takes the metadata for a format string may well crash, and that is a verdict, not the end of the sweep
+                int pfd[2]; if (pipe(pfd)) continue;
+                pid_t pid = fork();
+                if (pid == 0) { h_close(pfd[0]); std::string v = description_run(kind, 1, 4, 5, 5, desc_meta(1000 + c)); if (!v.empty() && write(pfd[1], v.data(), v.size()) < 0) {} _exit(0); }
+                h_close(pfd[1]);
+                std::string v; char buf[512]; for (;;) { ssize_t r = read(pfd[0], buf, sizeof buf); if (r <= 0) break; v.append(buf, (size_t)r); }
+                h_close(pfd[0]);
+                int st = 0; waitpid(pid, &st, 0);
+                if (WIFSIGNALED(st)) v = std::string("writer-crashed|signal ") + std::to_string(WTERMSIG(st)) + " while writing a frame with the metadata " + desc_meta(1000 + c);
+                note2(v, "desc=" + std::to_string(kind) + ",1,4,5,5," + std::to_string(1000 + c));
             }
             for (int L = 0; L <= 200; ++L) {
                 std::string meta = "{\"k\":\"" + std::string((size_t)L, 'x') + "\"}";
